@@ -1,14 +1,19 @@
 """C19 — the public API is pure, repeatable and representation-independent.
 
 Theorems: lean/PersimVerif/Props/C19.lean over the memory-level IR of lean/PersimVerif/Model/IR.lean
-(`points_to_sound`, `no_owned_write`, `checked_no_owned_write`, `deterministic_of_no_global`, …).
+(`points_to_sound`, `no_owned_write`, `checked_no_owned_write`, `wellFormed_*`, `deterministic_of_no_global`,
+`result_function_of_arguments`, `seeded_result_function_of_arguments`, `second_call_same_result`, …).
 Model: REGENERATED FROM THE SOURCE on every run by harness/translator/py2ir.py (`pre_build`): one IR program, one
-solution and the obligations `safe_<entry>` / `glob_<entry>` per public entry point, in
-lean/PersimVerif/Generated/ApiIR.lean and its shards.  The translator and its classification table are TRUSTED.
+solution and the obligations `safe_<entry>` / `glob_<entry>` / `wf_<entry>` (and `repeat_<entry>` where a literal second call
+provably returns an equal result) per public entry point, in lean/PersimVerif/Generated/ApiIR.lean and its shards.  The
+translator and its classification table are TRUSTED.
 [T]: the translator self-test on a seeded snippet corpus (each known-bad snippet must be rejected by the Lean checker,
-no known-good one may be), and the DYNAMIC SWEEP over every public entry point (the same list the translator
-enumerates): arguments byte-compared before/after, calls repeated / interleaved / rebuilt and compared, seeded
-reproducibility of the mGH upper bound, and representation independence (nested lists / int arrays / float arrays).
+no known-good one may be; every translation must be well-formed), the check of the `out` / `copy` positions of the
+classification table against the installed numpy, and the DYNAMIC SWEEP over every public entry point (the list the
+translator enumerates plus the public methods inherited from scikit-learn): arguments byte-compared before/after, calls
+repeated / interleaved / rebuilt and compared — for plotting functions the "result" is what was drawn (the data of the new
+artists, and on which axes) —, seeded reproducibility of the mGH upper bound, and representation independence (nested lists /
+int arrays / float arrays, also for arguments that are lists of diagrams).
 The sweep is also the failing-input search when a generated obligation no longer builds.
 """
 import copy
@@ -23,16 +28,27 @@ RULE = ("every public entry point enumerated by the translator (functions, metho
         "dunder operators) is called on arguments built from one PRNG: diagrams of 1-8 points from lattice/half/dyadic/decimal/"
         "uniform coordinate modes (ties, duplicates, infinite deaths where the routine filters them), graphs of 3-7 vertices as "
         "dense/nested-list/sparse adjacency matrices, exact and approximate landscapes built from such diagrams, grids, kernels, "
-        "weights and matplotlib axes on Agg; each case = (entry point, argument seed); non-trivial = the call returned without an "
-        "exception on arguments holding at least one array/list with >= 2 elements; distinct by digest of (entry, seed)")
+        "weights and matplotlib axes on Agg (the axes handed over as ax= is pyplot's current axes in half of the cases and not in the "
+        "other half); each case = (entry point, argument seed); non-trivial = the call returned without an "
+        "exception on arguments holding at least one array/list with >= 2 elements; distinct by digest of (entry, seed). "
+        "Representation forms: float64 / int64 / nested list / uint8 / int8 / int16 / int32 of every diagram argument (a single diagram or "
+        "a list of diagrams), integer forms only where they hold the same values exactly")
 ASSUMPTIONS = [
     "the IR programs over-approximate the Python functions: this is the translator's job (trusted, validated by the snippet corpus and the sweep)",
     "diagram / matrix arrays have a numeric dtype, so np.copy / astype / arithmetic results hold no references to their inputs",
-    "caller-supplied callables (weight=, kernel=, key=) do not mutate their arguments; persim's own kernels and weights are entry points themselves",
+    "caller-supplied callables — ONLY the parameters / instance attributes named `weight` and `kernel` (tables.CALLER_CALLABLES) — do not "
+    "mutate their arguments; persim's own kernels and weights are entry points themselves. A call through any other value the translator "
+    "cannot resolve is an unknown call that may write everything reachable from its arguments and its receiver",
+    "a method name that some persim class defines, called on a receiver of unknown class, is taken to be one of those persim methods (or, "
+    "if the name is also in a table, the table's meaning)",
     "an instance is not also passed as another argument of its own method; attribute tables of instances may be updated (lazy caches, fit)",
     "library routines listed as read-only in the classification table (numpy/scipy/sklearn/matplotlib/hopcroftkarp) do not mutate their inputs "
     "(exercised by the byte comparison of the sweep on every run)",
-    "matplotlib Axes/Figure arguments and pyplot's global state are drawing targets, not 'arrays or lists', and are excluded from 'results'",
+    "matplotlib Axes/Figure arguments and pyplot's global state are drawing targets, not 'arrays or lists': the IR does not protect them. "
+    "The sweep compares WHAT IS DRAWN (data of the new line / collection / image / text / patch artists; not colours, sizes, limits) "
+    "between repeats, and demands that a call given ax= explicitly adds no artist to any other axes",
+    "a representation form that raises where the float form works is outside the property ('wherever the function accepts those forms'): "
+    "known limits are listed in FORMS_NOT_ACCEPTED, anything else is reported as a correspondence break (no failing input claimed)",
 ]
 TRUSTED = [
     "harness/translator/py2ir.py and harness/translator/tables.py: the source -> IR translator and its classification table (printed into the "
@@ -1484,6 +1500,12 @@ def run(ctx):
         "dynamic_only": {r.name: py2ir.load_policy()["dynamic_only"][r.name] for r in results if r.kind == "dynamic_only"},
     }
     ctx.extra["global_state_classification"] = {r.name: r.classification for r in results if r.classification != "pure"}
+    ctx.extra["second_call_theorem_applies"] = {
+        "what": "entry points with the generated theorem repeat_<entry> (pureCall and no global / RNG): Props/C19.lean "
+                "second_call_same_result — a literal second call on the heap the first call left returns an equal result",
+        "entry_points": [r.name for r in results if r.repeatable],
+        "not_covered": {r.name: ("updates attributes of its object (lazy cache / fit / setter)" if r.classification == "pure" else r.classification)
+                        for r in results if r.kind == "obligation" and not r.repeatable}}
     ctx.extra["programs"] = {"entry_points": len(results), "instructions": sum(len(r.prog.instrs) for r in results),
                              "allocation_sites": sum(r.sol["nObj"] - 1 for r in results)}
     ctx.extra["unknown_calls"] = sorted(tr.unknown_calls)
@@ -1529,6 +1551,7 @@ def run(ctx):
     pool = [n for n in pool if not n.startswith("landscapes.visuals")] * 3 + [n for n in pool if n.startswith("landscapes.visuals")]
     order = [n for n in suspects if n in BUILDERS] + [n for n in names if n in BUILDERS and n not in suspects]
     nviol = 0
+    forms_reported = set()
     for name in suspects:                                  # module-level state: compare with a fresh interpreter
         r0 = [r for r in results if r.name == name][0]
         if name in BUILDERS and not r0.globals_ok and "pyplot" not in r0.classification.split() and kinds[name] == "obligation":
@@ -1554,12 +1577,14 @@ def run(ctx):
                     raise
                 continue
             for check, text in problems:
-                nviol += 1
-                if check == "form_acceptance":
-                    ctx.violation(text, {"entry": name, "seed": seed, "check": check, "others": others,
-                                         "correspondence": "representation forms accepted", "line": name},
-                                  found_input=False, correspondence="FORMS_NOT_ACCEPTED")
+                if check == "form_acceptance":                 # a correspondence break: reported once per message, the search goes on
+                    if text not in forms_reported:
+                        forms_reported.add(text)
+                        ctx.violation(text, {"entry": name, "seed": seed, "check": check, "others": others,
+                                             "correspondence": "representation forms accepted", "line": name},
+                                      found_input=False, correspondence="FORMS_NOT_ACCEPTED")
                     continue
+                nviol += 1
                 ctx.violation(text, {"entry": name, "seed": seed, "check": check, "others": others,
                                      "reproduce": "VERIF_SEED=%d ./check.py C19  (or: ./check.py C19 --replay <this file>)" % ctx.seed},
                               found_input=True, obligation_broken=name in suspects)
@@ -1611,17 +1636,30 @@ MANIFEST = {
     "text": "Proof over a memory-level IR that is regenerated from persim's source on every run. Lean theorems (no bound on program size, "
             "path, loop count or call sequence): points_to_sound (every solution of the inclusion constraints abstracts every execution, "
             "instructions taken in any order any number of times), no_owned_write / checked_no_owned_write (if the decidable checker `safe` "
-            "accepts, every caller-owned buffer keeps its data and element slots in every execution), deterministic_of_no_global (a program "
-            "without readGlobal computes its visible result as a function of its arguments and the RNG stream). The translator "
-            "harness/translator/py2ir.py emits one IR program per public entry point (functions, methods, constructors, properties, dunder "
-            "operators; persim-internal calls inlined per call site) plus the obligations safe_<entry> and glob_<entry>, each discharged by "
-            "kernel evaluation (decide +kernel, no native_decide). One entry point is dynamic-only (check_assignment_feasibility, see "
-            "dynamic_only.json) and one is in place by documented contract (PersImage.to_landscape: obligation unsafe_<entry>). Every run "
-            "also executes the dynamic sweep on all entry points.",
+            "accepts, every caller-owned buffer keeps its data and element slots in every execution), wellFormed_defined / _nonempty / "
+            "_inRange with unbound_of_undefined (the decidable guard `wellFormed`: no instruction reads a variable nothing defines, no write "
+            "is judged on an empty points-to set, no table lookup falls back on a default), deterministic_of_no_global (equal visible states "
+            "give equal visible results whatever the module-level state), result_function_of_arguments / seeded_result_function_of_arguments "
+            "(a program with no readGlobal and no rng — resp. with rng from the same stream position — run from two heaps that agree only on "
+            "what the arguments reach, up to a renaming of addresses, gives every variable the same value to every depth) and "
+            "second_call_same_result (for a `pureCall` program — safe and no attribute update of a caller-owned object — a literal second "
+            "call on the heap the first call left returns an equal result). The translator "
+            "harness/translator/py2ir.py emits one IR program per public entry point (117: functions, methods, constructors, properties, dunder "
+            "operators; persim-internal calls inlined per call site) plus the obligations safe_<entry>, glob_<entry>, wf_<entry> (115 each) "
+            "and repeat_<entry> (57: the entry points to which second_call_same_result applies; methods that cache on their object are "
+            "not among them), each discharged by kernel evaluation (decide +kernel, no native_decide). One entry point is dynamic-only "
+            "(check_assignment_feasibility, see dynamic_only.json) and one is in place by documented contract (PersImage.to_landscape: "
+            "obligation unsafe_<entry>: post-fixpoint, well-formed and not safe). Every run also executes the dynamic sweep on all entry "
+            "points and on the three public methods inherited from scikit-learn (no persim source, no IR).",
     "note": "Trusted: Lean kernel; the translator py2ir.py with its classification table tables.py and policy.json (the tie between source and "
-            "IR is the translator, validated by a seeded corpus of known-bad/known-good snippets and by the sweep, not proved). [T] only: "
-            "argument byte-comparison, repeat / interleave / fresh-object equality, np.random.seed reproducibility of the mGH upper bound, and "
+            "IR is the translator, validated by a seeded corpus of 76 known-bad / 29 known-good snippets, by the check of its out/copy "
+            "positions against the installed numpy, and by the sweep, not proved). The translator over-approximates what it cannot resolve: "
+            "calls through unresolved callables are unknown calls that may write everything reachable; only `weight` / `kernel` are assumed "
+            "read-only caller-supplied callables. [T] only: "
+            "argument byte-comparison, repeat / interleave / fresh-object equality (for plots: of what was drawn, and no artist on axes that "
+            "were not passed), np.random.seed reproducibility of the mGH upper bound, and "
             "representation independence (nested lists / int arrays / float arrays) — the IR has no values or dtypes. Attribute tables of "
-            "instances (lazy caches, fit) and matplotlib handles are outside 'arrays or lists'.",
+            "instances (lazy caches, fit) and matplotlib handles are outside 'arrays or lists'; the address-blind-driver hypothesis "
+            "(`Respects`) of the repeat theorems is a modelling assumption about Python code (results do not depend on id()).",
     "technique": "Lean 4 soundness proof of a points-to analysis over a translated IR + per-entry-point kernel-checked obligations + dynamic sweep",
 }
